@@ -1,13 +1,89 @@
-"""C16 - binary fields and binary curves compute in GF(2^m) and its curve groups."""
+"""C16 - binary fields and binary curves compute in GF(2^m) and its curve groups.
+
+Oracle: model/gf2m.py (GF2m, GF2m2, BinCurve) on Python ints.  Three parts per configuration:
+  field  fb_* / fb2_* against polynomial arithmetic modulo the configured polynomial(s)
+  curve  eb_* point operations (all coordinate systems, exceptional operands) against the affine group law
+  mul    every scalar multiplication (plain, fixed-base, simultaneous) against [k]P
+"""
 import ctypes
+import json
+import os
 
 from ..rt import RT, MonitorViolation
 from ..ctx import hx
-from ..model.gf2m import GF2m, GF2m2, BinCurve, clmul
+from ..model.gf2m import GF2m, GF2m2, BinCurve
+from ..model.curves import is_probable_prime
 
 LEVEL = "exploration"
+RULE = ("field part: operands from structured bit patterns (0, 1, z^(m-1), all-ones, runs touching the top bit and the "
+        "digit boundaries, single bits, alternating, low weight, random; trace 0 and trace 1) on every polynomial of "
+        "the configured degree, every algorithm variant and the dispatch macro, every alias pattern; results read raw "
+        "from the digit array (bits >= m must be clear) and compared with polynomial arithmetic mod f. "
+        "curve part: points O (three encodings), the point of order two, points of order four where they exist, "
+        "odd-order subgroup points, points outside the subgroup, P=Q, P=-Q, written raw in affine, Lopez-Dahab "
+        "projective (random Z and Z=1) and lambda coordinates; outputs read raw and normalised by the model. "
+        "mul part: base points [s]G + [t]T with known (s,t), scalars 0, +-1, 2, n-1, n, n+1, 2n, kn+-1, 2^k, 2^k-1, "
+        "alternating, negative, up to the bn capacity; verdict policy of DESIGN 3/C03: 0 <= k < n must give [k]P "
+        "without error, any other scalar may give [k]P or raise an error. "
+        "A case is non-trivial when no operand is zero/identity; distinct = distinct (key, inputs)")
+ASSUMPTIONS = ["model/gf2m.py: carry-less polynomial arithmetic on Python ints modulo the polynomial read from "
+               "fb_poly_get() (checked irreducible by Rabin's test in the model)",
+               "the affine group law of y^2+xy=x^3+ax^2+b with a, b, G, n, h read through the eb_curve_get_* getters; "
+               "G on the curve, n prime and [n]G = O re-checked by the model (parameter correctness itself is C18)",
+               "E(GF(2^m)) = <G> x Z/h with cyclic 2-part (true for every ordinary binary curve), so [k]([s]G+[t]T) = "
+               "[ks mod n]G + [kt mod h]T",
+               "eb_hlv: 2*result = input is demanded everywhere on 2E; result = P for input 2P is demanded only when "
+               "h = 2 (for h = 4 both halves lie in 2E and the trace test cannot tell them apart)",
+               "fb_slv is judged on trace-0 inputs only (the API cannot report the unsolvable case)",
+               "scalar multiplications are fed affine (BASIC) points; projective operands are exercised on the "
+               "point operations"]
+
+KNOWN = os.path.join(os.path.dirname(os.path.dirname(os.path.dirname(os.path.abspath(__file__)))),
+                     "known_findings.jsonl")
+
+# Fatal (sanitizer abort / runaway) defects that are listed as *known* are produced by exactly one directed
+# case per curve, executed first in one shard; everywhere else the generators step around the predicate.
+# When the entry disappears from known_findings.jsonl or is marked fixed the class is generated at full
+# rate again, so a regression is reported.  name -> exact key pattern of the known finding
+CONFINE = {
+    "rdc_basic_zero": "fb_rdc_basic|*|zero-result|crash:*",
+    "srt_quick_srtp": "fb_srt_quick|*|srtp|crash:*",
+    "fix_basic_long": "eb_mul_fix_basic|*|*long|crash:*",
+    "sim_trick_unit": "eb_mul_sim_trick|*|u|crash:*",
+    "sim_joint_long_m": "eb_mul_sim_joint|*|long:m|crash:*",
+}
 
 
+def load_confined():
+    active = set()
+    try:
+        for ln in open(KNOWN):
+            ln = ln.strip()
+            if not ln or ln.startswith("#"):
+                continue
+            k = json.loads(ln)
+            if k.get("property") == "C16" and k.get("status") == "known":
+                for name, pat in CONFINE.items():
+                    if k.get("key") == pat:
+                        active.add(name)
+    except OSError:
+        pass
+    return active
+
+
+def parts(tier):
+    q = tier == "quick"
+    p = [dict(part="field", cfg="asan256", shards=4 if q else 6),
+         dict(part="curve", cfg="asan256", shards=4 if q else 8),
+         dict(part="mul", cfg="asan256", shards=8 if q else 12)]
+    if not q:
+        for cfg in ("asan256b233", "asan256b163"):
+            p += [dict(part="field", cfg=cfg, shards=2), dict(part="curve", cfg=cfg, shards=2),
+                  dict(part="mul", cfg=cfg, shards=4)]
+    return p
+
+
+# ===================================================================================== object layer
 class BX(object):
     """raw object layer for fb_st / fb2_t / eb_st (ALLOC=AUTO layouts exported by the shim)"""
 
@@ -18,7 +94,8 @@ class BX(object):
         self.nd = K["RLC_FB_DIGS"]
         self.fbsz = K["sizeof_fb_st"]
         self.nbytes = self.nd * R.DB
-        assert self.fbsz == self.nbytes, "fb_st is expected to be a bare digit array"
+        if self.fbsz != self.nbytes or K["sizeof_fb2_t"] != 2 * self.fbsz:
+            raise RuntimeError("fb_st is expected to be a bare digit array")
         self.ebsz = K["sizeof_eb_st"]
         self.ox, self.oy, self.oz, self.oc = (K["off_eb_st_x"], K["off_eb_st_y"], K["off_eb_st_z"],
                                               K["off_eb_st_coord"])
@@ -35,6 +112,7 @@ class BX(object):
             i += 1
         self.BASIC, self.PROJC, self.HALVE = K["BASIC"], K["PROJC"], self.X["EB_HALVE"]
         self.mask = (1 << self.m) - 1
+        self.dvsz = K["RLC_DV_DIGS"] * R.DB
 
     # field elements
     def fb_new(self, x=None):
@@ -50,13 +128,19 @@ class BX(object):
     def fb_get(self, a):
         return int.from_bytes(ctypes.string_at(a, self.nbytes), "little")
 
+    def fb_fill(self, a, byte):
+        ctypes.memset(a, byte, self.fbsz)
+
     def fbn_new(self, n, xs=None):
         """contiguous array of n field elements (fb_t * / fb2_t with ALLOC=AUTO)"""
         a = self.R.mem(self.fbsz * n, self.R.poison)
         if xs is not None:
-            for i, x in enumerate(xs):
-                self.fb_put(a + i * self.fbsz, x)
+            self.fbn_put(a, xs)
         return a
+
+    def fbn_put(self, a, xs):
+        for i, x in enumerate(xs):
+            self.fb_put(a + i * self.fbsz, x)
 
     def fbn_get(self, a, n):
         return [self.fb_get(a + i * self.fbsz) for i in range(n)]
@@ -76,10 +160,692 @@ class BX(object):
         return (self.fb_get(P + self.ox), self.fb_get(P + self.oy), self.fb_get(P + self.oz),
                 self.R.rd_int(P + self.oc))
 
+    def eb_fill(self, P, byte, n=1):
+        ctypes.memset(P, byte, self.ebsz * n)
 
-def parts(tier):
-    return []
+
+def impl_of(R, name):
+    """implementation function behind a dispatch macro of this build (keys always name the implementation)"""
+    if R.has(name):
+        return R.target(name)
+    exp = R.macros.get(name)
+    if exp:
+        t = exp.strip().rstrip(";").strip()
+        i = t.find("(")
+        if i > 0 and t[:i].strip().replace("_", "a").isalnum():
+            return t[:i].strip()
+    return name
+
+
+# dispatch macros rt.py cannot resolve (trailing ';' in the expansion, variadic): wrappers in shim/vf_x_C16.c
+WRAP = {"eb_add": "vf_x16_eb_add", "eb_dbl": "vf_x16_eb_dbl"}
+
+
+class Case(object):
+    """with Case(ctx, key, desc) as go: if go: ...   (journal, watchdog, monitor violations)"""
+
+    def __init__(self, ctx, key, desc, nontrivial=True, budget=None):
+        self.ctx, self.key, self.desc, self.nt, self.budget = ctx, key, desc, nontrivial, budget
+
+    def __enter__(self):
+        return self.ctx.begin(self.key, self.desc, nontrivial=self.nt, budget=self.budget)
+
+    def __exit__(self, et, ev, tb):
+        self.ctx.end()
+        if et is not None and issubclass(et, MonitorViolation):
+            self.ctx.fail((self.ctx.cur_key or self.key) + "|" + ev.kind, ev.detail)
+            return True
+        return False
+
+
+# ===================================================================================== field part
+def patterns(rng, m, W):
+    """one structured element of GF(2^m) (as an int < 2^m)"""
+    mask = (1 << m) - 1
+    c = rng.randrange(16)
+    if c == 0:
+        return rng.choice([0, 1, 2, 3])
+    if c == 1:
+        return 1 << (m - 1)
+    if c == 2:
+        return mask
+    if c == 3:      # run of ones touching the top
+        return mask ^ ((1 << rng.randrange(m)) - 1)
+    if c == 4:      # run of ones from the bottom
+        return (1 << rng.randrange(1, m + 1)) - 1
+    if c == 5:
+        return 1 << rng.randrange(m)
+    if c == 6:      # whole digits all-ones / zero
+        v = 0
+        for i in range((m + W - 1) // W):
+            if rng.random() < 0.5:
+                v |= ((1 << W) - 1) << (W * i)
+        return v & mask
+    if c == 7:
+        return (int("5" * ((m + 3) // 4), 16) << rng.randrange(2)) & mask
+    if c == 8:      # low weight
+        v = 0
+        for _ in range(rng.randrange(2, 6)):
+            v |= 1 << rng.randrange(m)
+        return v
+    if c == 9:      # top nibble / byte patterns
+        return (rng.getrandbits(m) | (rng.choice([0xF, 0xFF, 0x8, 0xC]) << (m - rng.choice([4, 8])))) & mask
+    if c == 10:
+        return rng.getrandbits(rng.choice([8, 63, 64, 65, 128]))
+    if c == 11:     # around a digit boundary
+        i = W * rng.randrange(1, (m + W - 1) // W)
+        return ((rng.getrandbits(6) << (i - 3)) | rng.getrandbits(m) & rng.getrandbits(m)) & mask
+    return rng.getrandbits(m)
+
+
+def pr(F, xs):
+    r = 1
+    for v in xs:
+        r = F.mul(r, v)
+    return r
+
+
+def merge(*cl):
+    for c in ("zero", "one", "top"):
+        if c in cl:
+            return c
+    return "gen"
+
+
+def fcls(x, m):
+    if x == 0:
+        return "zero"
+    if x == 1:
+        return "one"
+    if x >> (m - 1):
+        return "top"
+    return "gen"
+
+
+class FieldPart(object):
+    def __init__(self, ctx, R, B):
+        self.ctx, self.R, self.B, self.rng = ctx, R, B, ctx.rng
+        self.m, self.W = B.m, R.DIG
+        self.K = R.K
+        self.EQ, self.NE = R.K["RLC_EQ"], R.K["RLC_NE"]
+        self.a, self.b, self.c = B.fb_new(0), B.fb_new(0), B.fb_new(0)
+        self.a2, self.b2, self.c2 = B.fbn_new(2), B.fbn_new(2), B.fbn_new(2)
+        self.dv = R.mem(B.dvsz, 0)
+        self.k = R.bn_new()
+        self.not_built = set()
+        self.slv_tr1 = 0
+        self.confined = load_confined()
+        self.stepped = 0
+
+    def el(self):
+        return patterns(self.rng, self.m, self.W)
+
+    def has(self, fn):
+        if self.R.has(fn):
+            return True
+        self.not_built.add(fn)
+        return False
+
+    # ------------------------------------------------------------------ verdict helpers
+    def out_fb(self, ptr, exp, what="value", extra=None):
+        got = self.B.fb_get(ptr)
+        d = {"got": hx(got), "exp": hx(exp)}
+        if extra:
+            d.update(extra)
+        self.ctx.check(got == exp, self.ctx.cur_key + "|" + what, d)
+        return got
+
+    def unchanged(self, ptr, val):
+        self.ctx.check(self.B.fb_get(ptr) == val, self.ctx.cur_key + "|input-modified",
+                       {"was": hx(val), "now": hx(self.B.fb_get(ptr))})
+
+    def no_error(self, res):
+        return self.ctx.check(not res.caught, self.ctx.cur_key + "|unexpected-error", {"err": res.err})
+
+    # ------------------------------------------------------------------ operations
+    def binop(self, fld, F, fn, x, y, model):
+        ctx, R, B, rng = self.ctx, self.R, self.B, self.rng
+        alias = rng.randrange(4)
+        if alias == 3:
+            y = x
+        key = "%s|%s|%s|alias%d" % (impl_of(R, fn), fld, merge(fcls(x, self.m), fcls(y, self.m)), alias)
+        with Case(ctx, key, [hx(x), hx(y)], nontrivial=bool(x and y)) as go:
+            if not go:
+                return
+            B.fb_put(self.a, x)
+            B.fb_put(self.b, y)
+            B.fb_fill(self.c, R.poison)
+            pa = self.a
+            pb = self.a if alias == 3 else self.b
+            out = {1: self.a, 2: self.b}.get(alias, self.c)
+            res = R.call(fn, out, pa, pb)
+            if not self.no_error(res):
+                return
+            self.out_fb(out, model(x, y))
+            if out != self.a:
+                self.unchanged(self.a, x)
+            if out != self.b and alias != 3:
+                self.unchanged(self.b, y)
+
+    def unop(self, fld, F, fn, x, exp, cls=None, may_err=False, must_err=False, judge=None):
+        """c = fn(a); exp is the expected value (or None when judge(got) decides)"""
+        ctx, R, B, rng = self.ctx, self.R, self.B, self.rng
+        alias = rng.randrange(2)
+        key = "%s|%s|%s|alias%d" % (impl_of(R, fn), fld, cls or fcls(x, self.m), alias)
+        with Case(ctx, key, [hx(x)], nontrivial=bool(x)) as go:
+            if not go:
+                return
+            B.fb_put(self.a, x)
+            B.fb_fill(self.c, R.poison)
+            out = self.a if alias else self.c
+            res = R.call(fn, out, self.a)
+            if must_err:
+                ctx.check(res.caught, key + "|no-error", {"got": hx(B.fb_get(out))})
+                return
+            if res.caught:
+                ctx.check(may_err, key + "|unexpected-error", {"err": res.err})
+                return
+            if judge is not None:
+                got = B.fb_get(out)
+                ctx.check(got <= B.mask and judge(got), key + "|value", {"got": hx(got)})
+            else:
+                self.out_fb(out, exp)
+            if not alias:
+                self.unchanged(self.a, x)
+
+    def run_field(self, fld, F, N):
+        ctx, R, B, rng, m = self.ctx, self.R, self.B, self.rng, self.m
+        F2 = GF2m2(F)
+        f = F.f
+        muls = [fn for fn in ("fb_mul_basic", "fb_mul_integ", "fb_mul_lodah", "fb_mul_karat", "fb_mul") if self.has(fn)]
+        sqrs = [fn for fn in ("fb_sqr_basic", "fb_sqr_integ", "fb_sqr_quick", "fb_sqr") if self.has(fn)]
+        rdcs = [fn for fn in ("fb_rdc_basic", "fb_rdc_quick", "fb_rdc") if self.has(fn)]
+        invs = [fn for fn in ("fb_inv_basic", "fb_inv_binar", "fb_inv_exgcd", "fb_inv_almos", "fb_inv_itoht",
+                              "fb_inv_bruch", "fb_inv_ctaia", "fb_inv_lower", "fb_inv") if self.has(fn)]
+        srts = [fn for fn in ("fb_srt_basic", "fb_srt_quick", "fb_srt") if self.has(fn)]
+        trcs = [fn for fn in ("fb_trc_basic", "fb_trc_quick", "fb_trc") if self.has(fn)]
+        slvs = [fn for fn in ("fb_slv_basic", "fb_slv_quick", "fb_slv") if self.has(fn)]
+        exps = [fn for fn in ("fb_exp_basic", "fb_exp_slide", "fb_exp_monty", "fb_exp") if self.has(fn)]
+        for fn in ("fb_neg", "fb_exp_2b"):
+            self.has(fn)
+        ops = (["mul"] * 10 + ["sqr"] * 5 + ["add"] * 2 + ["rdc"] * 3 + ["inv"] * 5 + ["srt"] * 3 + ["trc"] * 2 +
+               ["slv"] * 3 + ["exp"] * 2 + ["itr"] * 2 + ["shift"] * 2 + ["util"] * 3 + ["fb2"] * 5 + ["inv_sim"] +
+               ["mul_dig"] * 2)
+        # iterated-squaring tables are expensive to build: a few exponents per worker, many elements each
+        itr_tabs = {}
+        # fb_srtn_low takes its pentanomial path (fb_srtp_low) when all three middle exponents are odd
+        mid = [i for i in range(1, m) if (f >> i) & 1]
+        srtp = len(mid) == 3 and all(i & 1 for i in mid)
+        quick_srt = [fn for fn in srts if impl_of(R, fn) == "fb_srt_quick"]
+        srt_off = srtp and "srt_quick_srtp" in self.confined and bool(quick_srt)
+        if srt_off:
+            # known fatal: one sacrificial case, afterwards everything that reaches fb_srt_quick is stepped around
+            if ctx.shard == 0:
+                with Case(ctx, "fb_srt_quick|%s|srtp" % fld, [hx(5)]) as go:
+                    if go:
+                        B.fb_put(self.a, 5)
+                        if self.no_error(R.call("fb_srt_quick", self.c, self.a)):
+                            self.out_fb(self.c, F.sqrt(5))
+            srts = [fn for fn in srts if fn not in quick_srt]
+        srt_dep = srt_off and impl_of(R, "fb_srt") == "fb_srt_quick"     # fb_itr_* with b < 0 call fb_srt
+        if "rdc_basic_zero" in self.confined and ctx.shard == 0 and "fb_rdc_basic" in rdcs:
+            with Case(ctx, "fb_rdc_basic|%s|zero-result" % fld, [hx(0)]) as go:
+                if go:
+                    ctypes.memset(self.dv, 0, B.dvsz)
+                    B.fb_fill(self.c, R.poison)
+                    if self.no_error(R.call("fb_rdc_basic", self.c, self.dv)):
+                        self.out_fb(self.c, 0)
+        delems = [0, 1, 2, 3, 1 << (m - 1), B.mask, (1 << (m - 1)) | 1, f & B.mask]
+        # every variant of every unary operation sees the distinguished elements first (split over the shards)
+        directed = [(o, fn, x) for o, fns in (("inv", invs), ("sqr", sqrs), ("srt", srts), ("trc", trcs), ("slv", slvs))
+                    for fn in fns for x in delems]
+        for it in range(len(directed) + N):
+            R.poison = rng.randrange(1, 256)
+            pick = None
+            if it < len(directed):
+                if not ctx.mine(it):
+                    continue
+                op, pick, x = directed[it]
+            else:
+                op = rng.choice(ops)
+                x = self.el()
+
+            def variant(fns):
+                return pick if pick is not None else rng.choice(fns)
+            if op == "mul":
+                self.binop(fld, F, rng.choice(muls), x, self.el(), F.mul)
+            elif op == "add":
+                c = rng.randrange(3)
+                if c == 0:
+                    self.binop(fld, F, "fb_add", x, self.el(), lambda u, v: u ^ v)
+                elif c == 1:
+                    d = rng.choice([0, 1, rng.getrandbits(self.W), (1 << self.W) - 1])
+                    alias = rng.randrange(2)
+                    with Case(ctx, "fb_add_dig|%s|%s|alias%d" % (fld, fcls(x, m), alias), [hx(x), hx(d)]) as go:
+                        if go:
+                            B.fb_put(self.a, x)
+                            B.fb_fill(self.c, R.poison)
+                            out = self.a if alias else self.c
+                            if self.no_error(R.call("fb_add_dig", out, self.a, d)):
+                                self.out_fb(out, x ^ d)
+                else:
+                    alias = rng.randrange(2)
+                    with Case(ctx, "fb_poly_add|%s|%s|alias%d" % (fld, fcls(x, m), alias), [hx(x)]) as go:
+                        if go:
+                            B.fb_put(self.a, x)
+                            B.fb_fill(self.c, R.poison)
+                            out = self.a if alias else self.c
+                            if self.no_error(R.call("fb_poly_add", out, self.a)):
+                                self.out_fb(out, x ^ f)     # documented: c = a + f(z), not reduced
+            elif op == "mul_dig":
+                d = rng.choice([0, 1, 2, rng.getrandbits(self.W), (1 << self.W) - 1, 1 << (self.W - 1),
+                                rng.getrandbits(8)])
+                alias = rng.randrange(2)
+                dc = "d0" if d == 0 else ("dtop" if d >> (self.W - 1) else "d")
+                with Case(ctx, "fb_mul_dig|%s|%s,%s|alias%d" % (fld, fcls(x, m), dc, alias), [hx(x), hx(d)],
+                          nontrivial=bool(x and d)) as go:
+                    if go:
+                        B.fb_put(self.a, x)
+                        B.fb_fill(self.c, R.poison)
+                        out = self.a if alias else self.c
+                        if self.no_error(R.call("fb_mul_dig", out, self.a, d)):
+                            self.out_fb(out, F.mul(x, d))
+            elif op == "sqr":
+                self.unop(fld, F, variant(sqrs), x, F.sqr(x))
+            elif op == "rdc":
+                fn = rng.choice(rdcs)
+                c = rng.randrange(5)
+                if c == 0:
+                    wide = rng.choice([(1 << (2 * m - 1)) - 1, f << rng.randrange(m - 1), 0])
+                elif c == 1:
+                    wide = 1 << rng.randrange(2 * m - 1)
+                elif c == 2:
+                    wide = x        # already reduced
+                elif c == 3:
+                    wide = rng.getrandbits(2 * m - 1) | (1 << (2 * m - 2))
+                else:
+                    wide = rng.getrandbits(2 * m - 1)
+                cls = "deg<m" if wide <= B.mask else ("deg=2m-2" if wide >> (2 * m - 2) else "deg>=m")
+                if F.red(wide) == 0:
+                    cls = "zero-result"
+                    if impl_of(R, fn) == "fb_rdc_basic" and "rdc_basic_zero" in self.confined:
+                        self.stepped += 1
+                        continue
+                with Case(ctx, "%s|%s|%s" % (impl_of(R, fn), fld, cls), [hx(wide)], nontrivial=wide > B.mask) as go:
+                    if go:
+                        ctypes.memset(self.dv, R.poison, B.dvsz)
+                        nb = 2 * B.nbytes
+                        ctypes.memmove(self.dv, wide.to_bytes(nb, "little"), nb)
+                        B.fb_fill(self.c, R.poison)
+                        if self.no_error(R.call(fn, self.c, self.dv)):
+                            self.out_fb(self.c, F.red(wide))
+            elif op == "inv":
+                fn = variant(invs)
+                if x == 0:
+                    self.unop(fld, F, fn, 0, None, must_err=True)       # @throw ERR_NO_VALID
+                else:
+                    self.unop(fld, F, fn, x, F.inv(x))
+            elif op == "inv_sim":
+                n = rng.choice([1, 2, 3, 5, 8])
+                xs = [self.el() or 1 for _ in range(n)]
+                alias = rng.randrange(2)
+                if rng.random() < 0.15:
+                    xs = xs[:-1] + [F.inv(pr(F, xs[:-1]))]      # product of all inputs = 1
+                cls = "prod1" if pr(F, xs) == 1 else "gen"
+                with Case(ctx, "fb_inv_sim|%s|%s|alias%d" % (fld, cls, alias), [hx(v) for v in xs]) as go:
+                    if go:
+                        pa = B.fbn_new(n, xs)
+                        pc = pa if alias else B.fbn_new(n)
+                        try:
+                            if self.no_error(R.call("fb_inv_sim", pc, pa, n)):
+                                got = B.fbn_get(pc, n)
+                                exp = [F.inv(v) for v in xs]
+                                ctx.check(got == exp, ctx.cur_key + "|value",
+                                          {"got": [hx(v) for v in got], "exp": [hx(v) for v in exp]})
+                                if not alias:
+                                    ctx.check(B.fbn_get(pa, n) == xs, ctx.cur_key + "|input-modified")
+                        finally:
+                            R.free(pa)
+                            if pc != pa:
+                                R.free(pc)
+            elif op == "srt":
+                if not srts:
+                    self.stepped += 1
+                    continue
+                fn = variant(srts)
+                self.unop(fld, F, fn, x, None, judge=lambda g: F.sqr(g) == x)
+            elif op == "trc":
+                fn = variant(trcs)
+                t = F.trace(x)
+                with Case(ctx, "%s|%s|%s|tr%d" % (impl_of(R, fn), fld, fcls(x, m), t), [hx(x)], nontrivial=bool(x)) as go:
+                    if go:
+                        B.fb_put(self.a, x)
+                        res = R.call(fn, self.a)
+                        if self.no_error(res):
+                            ctx.check(res.r == t, ctx.cur_key + "|value", {"got": res.r, "exp": t})
+                            self.unchanged(self.a, x)
+            elif op == "slv":
+                fn = variant(slvs)
+                if F.trace(x) and pick is None and rng.random() < 0.8:
+                    x ^= 1 if m & 1 else 0          # Tr(1) = 1 for odd m: flip to a solvable right-hand side
+                if F.trace(x):
+                    # unsolvable: the API cannot say so; exercised (sanitizers only), not judged
+                    self.slv_tr1 += 1
+                    with Case(ctx, "%s|%s|tr1-not-judged" % (impl_of(R, fn), fld), [hx(x)], nontrivial=False) as go:
+                        if go:
+                            B.fb_put(self.a, x)
+                            R.call(fn, self.c, self.a)
+                else:
+                    self.unop(fld, F, fn, x, None, cls=fcls(x, m) + ",tr0", judge=lambda g: F.sqr(g) ^ g == x)
+            elif op == "exp":
+                fn = rng.choice(exps)
+                top = (1 << m) - 1
+                e = rng.choice([0, 1, 2, 3, top - 1, top, top + 1, rng.getrandbits(m), rng.getrandbits(m) | (1 << (m - 1)),
+                                rng.getrandbits(rng.randrange(1, m)), -1, -2, -rng.getrandbits(m),
+                                rng.getrandbits(m + 40), 1 << rng.randrange(m), (1 << rng.randrange(1, m)) - 1])
+                ecl = "e0" if e == 0 else ("e-in" if 0 < e <= top else ("e-neg" if e < 0 else "e-long"))
+                alias = rng.randrange(2)
+                key = "%s|%s|%s,%s" % (impl_of(R, fn), fld, fcls(x, m).replace("top", "gen"), ecl)
+                with Case(ctx, key, [hx(x), hx(e)], nontrivial=bool(x and e)) as go:
+                    if go:
+                        B.fb_put(self.a, x)
+                        B.fb_fill(self.c, R.poison)
+                        R.bn_put(self.k, e)
+                        out = self.a if alias else self.c
+                        res = R.call(fn, out, self.a, self.k)
+                        if x == 0 and e < 0:
+                            ctx.check(res.caught, key + "|no-error", {"got": hx(B.fb_get(out))})
+                        elif res.caught:
+                            # exponents 0 <= e < 2^m must work; longer / negative ones may be refused
+                            ctx.check(not 0 <= e <= top, key + "|unexpected-error", {"err": res.err})
+                        else:
+                            self.out_fb(out, F.pow(x, e))
+            elif op == "itr":
+                c = rng.randrange(4)
+                bexp = rng.choice([0, 1, 2, 3, m - 1, m, m + 1, -1, -2, -(m - 1), rng.randrange(-m, m + 1)])
+                if srt_dep and bexp < 0:
+                    self.stepped += 1
+                    continue
+                if c == 0 or not self.has("fb_itr_pre_quick"):
+                    fn = rng.choice(["fb_itr_basic", "vf_x16_fb_itr3"])
+                    alias = rng.randrange(2)
+                    key = "fb_itr_basic|%s|%s,%s|alias%d" % (fld, fcls(x, m), "b<0" if bexp < 0 else "b>=0", alias)
+                    with Case(ctx, key, [hx(x), bexp, fn]) as go:
+                        if go:
+                            B.fb_put(self.a, x)
+                            B.fb_fill(self.c, R.poison)
+                            out = self.a if alias else self.c
+                            if self.no_error(R.call(fn, out, self.a, bexp & 0xFFFFFFFF)):
+                                self.out_fb(out, F.itr(x, bexp))
+                else:
+                    if len(itr_tabs) < 3 and bexp not in itr_tabs:
+                        tab = R.mem(B.fbsz * self.K["RLC_FB_TABLE_MAX"], R.poison)
+                        with Case(ctx, "fb_itr_pre_quick|%s|%s" % (fld, "b<0" if bexp < 0 else "b>=0"), [bexp],
+                                  budget=600) as go:
+                            if go and self.no_error(R.call("fb_itr_pre_quick", tab, bexp & 0xFFFFFFFF)):
+                                itr_tabs[bexp] = tab
+                    if not itr_tabs:
+                        continue
+                    bexp = rng.choice(sorted(itr_tabs))
+                    tab = itr_tabs[bexp]
+                    fn = rng.choice(["fb_itr_quick", "vf_x16_fb_itr"])
+                    alias = rng.randrange(2)
+                    key = "fb_itr_quick|%s|%s,%s|alias%d" % (fld, fcls(x, m), "b<0" if bexp < 0 else "b>=0", alias)
+                    with Case(ctx, key, [hx(x), bexp, fn]) as go:
+                        if go:
+                            B.fb_put(self.a, x)
+                            B.fb_fill(self.c, R.poison)
+                            out = self.a if alias else self.c
+                            if fn == "fb_itr_quick":
+                                res = R.call(fn, out, self.a, tab)
+                            else:
+                                res = R.call(fn, out, self.a, bexp & 0xFFFFFFFF, tab)
+                            if self.no_error(res):
+                                self.out_fb(out, F.itr(x, bexp))
+            elif op == "shift":
+                fn = rng.choice(["fb_lsh", "fb_rsh"])
+                s = rng.choice([0, 1, 2, self.W - 1, self.W, self.W + 1, 2 * self.W, rng.randrange(m)])
+                alias = rng.randrange(2)
+                sc = "s0" if s == 0 else ("whole-digits" if s % self.W == 0 else ("s1" if s == 1 else "s"))
+                if fn == "fb_lsh":
+                    # documented: c = a * z^bits mod f(z)
+                    wraps = x.bit_length() + s > m
+                    exp = F.red(x << s)
+                    cls = "wraps" if wraps else "fits"
+                else:
+                    exp = x >> s
+                    cls = fcls(x, m)
+                with Case(ctx, "%s|%s|%s|%s|alias%d" % (fn, fld, cls, sc, alias), [hx(x), s], nontrivial=bool(x)) as go:
+                    if go:
+                        B.fb_put(self.a, x)
+                        B.fb_fill(self.c, R.poison)
+                        out = self.a if alias else self.c
+                        if self.no_error(R.call(fn, out, self.a, s)):
+                            self.out_fb(out, exp)
+            elif op == "util":
+                self.util(fld, F, x)
+            elif op == "fb2":
+                self.fb2(fld, F, F2, x)
+        for t in itr_tabs.values():
+            R.free(t)
+
+    def util(self, fld, F, x):
+        ctx, R, B, rng, m = self.ctx, self.R, self.B, self.rng, self.m
+        c = rng.randrange(9)
+        if c == 0:
+            y = x if rng.random() < 0.3 else (x ^ (1 << rng.randrange(m)) if rng.random() < 0.5 else self.el())
+            with Case(ctx, "fb_cmp|%s|%s" % (fld, "eq" if x == y else "ne"), [hx(x), hx(y)]) as go:
+                if go:
+                    B.fb_put(self.a, x)
+                    B.fb_put(self.b, y)
+                    r = R.call("fb_cmp", self.a, self.b)
+                    ctx.check(not r.caught and r.i == (self.EQ if x == y else self.NE), None, {"got": r.i})
+        elif c == 1:
+            d = rng.choice([0, 1, x & ((1 << self.W) - 1), rng.getrandbits(self.W)])
+            if rng.random() < 0.4:
+                x = d
+            elif rng.random() < 0.2:
+                x = d | (d << self.W) | (d << (2 * self.W))      # digits that cancel under XOR
+            fold = 0
+            for i in range(B.nd):
+                fold ^= (x >> (self.W * i)) & ((1 << self.W) - 1)
+            cls = "eq" if x == d else ("ne-fold" if fold == d else "ne")
+            with Case(ctx, "fb_cmp_dig|%s|%s" % (fld, cls), [hx(x), hx(d)]) as go:
+                if go:
+                    B.fb_put(self.a, x)
+                    r = R.call("fb_cmp_dig", self.a, d)
+                    ctx.check(not r.caught and r.i == (self.EQ if x == d else self.NE), None, {"got": r.i})
+        elif c == 2:
+            with Case(ctx, "fb_bits|%s|%s" % (fld, fcls(x, m)), [hx(x)]) as go:
+                if go:
+                    B.fb_put(self.a, x)
+                    r = R.call("fb_bits", self.a)
+                    ctx.check(not r.caught and r.r == x.bit_length(), None, {"got": r.r})
+        elif c == 3:
+            i = rng.choice([0, m - 1, rng.randrange(m)])
+            with Case(ctx, "fb_get_bit|%s|in-range" % fld, [hx(x), i]) as go:
+                if go:
+                    B.fb_put(self.a, x)
+                    r = R.call("fb_get_bit", self.a, i)
+                    ctx.check(not r.caught and r.i == (x >> i) & 1, None, {"got": r.i})
+        elif c == 4:
+            i = rng.choice([0, m - 1, rng.randrange(m)])
+            v = rng.randrange(2)
+            with Case(ctx, "fb_set_bit|%s|v%d" % (fld, v), [hx(x), i, v]) as go:
+                if go:
+                    B.fb_put(self.a, x)
+                    if self.no_error(R.call("fb_set_bit", self.a, i, v)):
+                        self.out_fb(self.a, (x | (1 << i)) if v else (x & ~(1 << i)))
+        elif c == 5:
+            with Case(ctx, "fb_is_zero|%s|%s" % (fld, "zero" if x == 0 else "nonzero"), [hx(x)]) as go:
+                if go:
+                    B.fb_put(self.a, x)
+                    r = R.call("fb_is_zero", self.a)
+                    ctx.check(not r.caught and r.i == int(x == 0), None, {"got": r.i})
+        elif c == 6:
+            with Case(ctx, "fb_copy|%s|" % fld, [hx(x)]) as go:
+                if go:
+                    B.fb_put(self.a, x)
+                    B.fb_fill(self.c, R.poison)
+                    if self.no_error(R.call("fb_copy", self.c, self.a)):
+                        self.out_fb(self.c, x)
+        elif c == 7:
+            d = rng.getrandbits(self.W)
+            with Case(ctx, "fb_set_dig|%s|" % fld, [hx(d)]) as go:
+                if go:
+                    B.fb_fill(self.c, R.poison)
+                    if self.no_error(R.call("fb_set_dig", self.c, d)):
+                        self.out_fb(self.c, d)
+            with Case(ctx, "fb_zero|%s|" % fld, []) as go:
+                if go:
+                    B.fb_fill(self.c, R.poison)
+                    if self.no_error(R.call("fb_zero", self.c)):
+                        self.out_fb(self.c, 0)
+        else:
+            with Case(ctx, "fb_rand|%s|" % fld, [], nontrivial=False) as go:
+                if go:
+                    B.fb_fill(self.c, 0xFF)
+                    if self.no_error(R.call("fb_rand", self.c)):
+                        got = B.fb_get(self.c)
+                        ctx.check(got <= B.mask, ctx.cur_key + "|value", {"got": hx(got)})
+
+    def fb2(self, fld, F, F2, x):
+        ctx, R, B, rng, m = self.ctx, self.R, self.B, self.rng, self.m
+        u = (x, self.el())
+        if rng.random() < 0.2:
+            u = (u[0], 0)
+        if rng.random() < 0.1:
+            u = (0, u[1])
+        c = rng.randrange(6)
+
+        def cls2(e):
+            return "zero" if e == (0, 0) else ("base" if e[1] == 0 else ("a0=0" if e[0] == 0 else "gen"))
+
+        def show(e):
+            return [hx(e[0]), hx(e[1])]
+
+        def out2(ptr, exp):
+            got = tuple(B.fbn_get(ptr, 2))
+            ctx.check(got == tuple(exp), ctx.cur_key + "|value", {"got": show(got), "exp": show(exp)})
+        if c in (0, 1):
+            v = (self.el(), self.el())
+            alias = rng.randrange(4)
+            if alias == 3:
+                v = u
+            mc = [c for c in ("zero", "base", "a0=0", "gen") if c in (cls2(u), cls2(v))][0]
+            with Case(ctx, "fb2_mul|%s|%s|alias%d" % (fld, mc, alias), show(u) + show(v),
+                      nontrivial=u != (0, 0) and v != (0, 0)) as go:
+                if go:
+                    B.fbn_put(self.a2, u)
+                    B.fbn_put(self.b2, v)
+                    ctypes.memset(self.c2, R.poison, 2 * B.fbsz)
+                    pb = self.a2 if alias == 3 else self.b2
+                    out = {1: self.a2, 2: self.b2}.get(alias, self.c2)
+                    if self.no_error(R.call("fb2_mul", out, self.a2, pb)):
+                        out2(out, F2.mul(u, v))
+        elif c == 2:
+            alias = rng.randrange(2)
+            with Case(ctx, "fb2_sqr|%s|%s|alias%d" % (fld, cls2(u), alias), show(u), nontrivial=u != (0, 0)) as go:
+                if go:
+                    B.fbn_put(self.a2, u)
+                    ctypes.memset(self.c2, R.poison, 2 * B.fbsz)
+                    out = self.a2 if alias else self.c2
+                    if self.no_error(R.call("fb2_sqr", out, self.a2)):
+                        out2(out, F2.sqr(u))
+        elif c == 3:
+            alias = rng.randrange(2)
+            with Case(ctx, "fb2_inv|%s|%s|alias%d" % (fld, cls2(u), alias), show(u), nontrivial=u != (0, 0)) as go:
+                if go:
+                    B.fbn_put(self.a2, u)
+                    ctypes.memset(self.c2, R.poison, 2 * B.fbsz)
+                    out = self.a2 if alias else self.c2
+                    res = R.call("fb2_inv", out, self.a2)
+                    if u == (0, 0):
+                        ctx.check(res.caught, ctx.cur_key + "|no-error", {"got": show(tuple(B.fbn_get(out, 2)))})
+                    elif self.no_error(res):
+                        out2(out, F2.inv(u))
+        elif c == 4:
+            if F2.trace(u):
+                u = (u[0], u[1] ^ 1)        # Tr_m(1) = 1: make the equation solvable
+            alias = rng.randrange(2)
+            tc = "tr(a0)=%d" % F.trace(u[0])
+            with Case(ctx, "fb2_slv|%s|%s,%s|alias%d" % (fld, cls2(u), tc, alias), show(u), nontrivial=u != (0, 0)) as go:
+                if go:
+                    B.fbn_put(self.a2, u)
+                    ctypes.memset(self.c2, R.poison, 2 * B.fbsz)
+                    out = self.a2 if alias else self.c2
+                    if self.no_error(R.call("fb2_slv", out, self.a2)):
+                        got = tuple(B.fbn_get(out, 2))
+                        ok = max(got) <= B.mask and F2.add(F2.sqr(got), got) == u
+                        ctx.check(ok, ctx.cur_key + "|value", {"got": show(got)})
+        else:
+            if not self.has("fb2_mul_nor"):
+                return
+            alias = rng.randrange(2)
+            with Case(ctx, "fb2_mul_nor|%s|%s|alias%d" % (fld, cls2(u), alias), show(u), nontrivial=u != (0, 0)) as go:
+                if go:
+                    B.fbn_put(self.a2, u)
+                    ctypes.memset(self.c2, R.poison, 2 * B.fbsz)
+                    out = self.a2 if alias else self.c2
+                    if self.no_error(R.call("fb2_mul_nor", out, self.a2)):
+                        out2(out, F2.mul(u, (0, 1)))
+
+
+def field_ids(R, B):
+    """field identifiers of this build: the named polynomials of degree RLC_FB_BITS"""
+    out = []
+    for nm, v in sorted(R.EH.get("relic_fb.h", {}).items(), key=lambda kv: kv[1]):
+        if nm.rsplit("_", 1)[-1] == str(B.m):
+            out.append((nm, v))
+    return out
+
+
+def read_poly(R, B):
+    R.L.fb_poly_get.restype = ctypes.c_void_p
+    # the polynomial has m + 1 bits and is stored in RLC_FB_DIGS digits
+    return B.fb_get(R.L.fb_poly_get())
+
+
+def run_field_part(ctx, R, B):
+    fp = FieldPart(ctx, R, B)
+    ids = field_ids(R, B)
+    if not ids:
+        raise RuntimeError("no field polynomial of degree %d in relic_fb.h" % B.m)
+    N = ctx.n(9000, 120000)
+    seen = []
+    for nm, v in ids:
+        ok = False
+        with Case(ctx, "fb_param_set|%s" % nm, [v], nontrivial=False, budget=600) as go:
+            if go:
+                r = R.call("fb_param_set", v)
+                ok = ctx.check(not r.caught, None, {"err": r.err})
+        if not ok:
+            continue
+        f = read_poly(R, B)
+        if f.bit_length() != B.m + 1:
+            if B.m % R.DIG == 0:
+                f |= 1 << B.m
+            else:
+                raise RuntimeError("fb_poly_get() has degree %d" % (f.bit_length() - 1))
+        F = GF2m(f)     # raises when f is reducible
+        F.trace_mask()
+        seen.append({"id": nm, "poly": hx(f)})
+        fp.run_field(nm, F, N // len(ids))
+    ctx.note("field_polynomials", seen)
+    ctx.note("functions_not_built", sorted(fp.not_built))
+    ctx.add("fb_slv_trace1_inputs_not_judged", fp.slv_tr1)
+    ctx.note("confined_known_fatal", sorted(fp.confined))
+    ctx.add("cases_stepped_around_confined_known_fatal", fp.stepped)
 
 
 def run(ctx, part):
-    pass
+    R = RT(ctx.cfg)
+    B = BX(R)
+    ctx.note("field_bits", B.m)
+    ctx.note("dispatch", {k: impl_of(R, k) for k in ("fb_mul", "fb_sqr", "fb_rdc", "fb_inv", "fb_srt", "fb_trc",
+                                                      "fb_slv", "fb_exp", "eb_add", "eb_dbl", "eb_neg", "eb_sub",
+                                                      "eb_mul", "eb_mul_pre", "eb_mul_fix", "eb_mul_sim")})
+    if part == "field":
+        run_field_part(ctx, R, B)
+    ctx.note("functions_exercised", sorted(R.fn_seen))
+    ctx.note("error_codes_seen", {str(k): v for k, v in R.err_codes.items()})
